@@ -71,7 +71,7 @@ class FuncInfo:
 
     def loc(self, node=None):
         n = node if node is not None else self.node
-        return "%s:%s" % (self.module.relpath, getattr(n, "lineno", "?"))
+        return "%s:%s" % (self.module.relpath, getattr(n, "_src_line", getattr(n, "lineno", "?")))
 
     def __repr__(self):
         return "<Func %s>" % self.qname
@@ -200,6 +200,14 @@ class Program:
                 except SyntaxError as e:
                     raise AnalysisError("cannot parse %s: %s" % (rel, e))
                 self.modules[name] = m
+        # undo extract-method refactorings (helpers the reference tree does not know) before indexing
+        from .normalise import undo_extractions
+        self.normalised = []
+        if os.environ.get("DEEP_VERIF_NORMALISE", "1") != "0":
+            try:
+                self.normalised = undo_extractions(self.modules)
+            except RecursionError:
+                self.normalised = []
         for m in self.modules.values():
             self._index_module(m)
 
